@@ -165,9 +165,9 @@ static std::vector<Span> tokens_of(const std::string& s, bool xml) {   // number
     while (i < n) { if (s[i] == '<') { size_t a = i + 1; if (a < n && (s[a] == '/' || s[a] == '?')) a++; size_t b = a; while (b < n && (isalnum((unsigned char)s[b]) || s[b] == '_')) b++; if (b > a) t.push_back({a, b}); while (i < n && s[i] != '>') i++; i++; size_t c = i; while (c < n && s[c] != '<') c++; size_t x = i, y = c; while (x < y && isspace((unsigned char)s[x])) x++; while (y > x && isspace((unsigned char)s[y - 1])) y--; if (y > x && s.compare(x, y - x, "@MESH@") != 0 && s.compare(x, y - x, "@OUT@") != 0) t.push_back({x, y}); i = c; } else i++; }
     return t;
 }
-static const char* REPL[] = {"-1", "0", "4294967296", "99999999999999999999", "1e999", "nan", "abc", "", "32768", "65535", "2147483648"};   // (the last three: first values that do not fit a signed / unsigned 16-bit and a signed 32-bit integer)
+static const char* REPL[] = {"-1", "0", "4294967296", "99999999999999999999", "1e999", "nan", "abc", "", "32768", "65535", "2147483648", "1431655765", "1431655766", "<!-- 1 -->", "<!-- 1 -->1"};   // (then: first values that do not fit a signed / unsigned 16-bit and a signed 32-bit integer; the two values around 2^32/3, where three coordinates per point wrap a 32-bit offset; an XML comment instead of / in front of an element's text)
 static const size_t NREPL = sizeof(REPL) / sizeof(REPL[0]), PER_TOKEN = 2 + NREPL;
-// the enumeration: for each base b, file f: truncation at every offset; per token: delete, duplicate, 11 replacements; byte flips of the first 400 bytes
+// the enumeration: for each base b, file f: truncation at every offset; per token: delete, duplicate, 15 replacements; byte flips of the first 400 bytes
 struct EnumInfo { std::vector<size_t> start; size_t total = 0; };
 static size_t count_file(const std::string& s, bool xml) { size_t nt = tokens_of(s, xml).size(); return s.size() + nt * PER_TOKEN + std::min<size_t>(400, s.size()); }
 static const EnumInfo& enum_info() { static EnumInfo E; if (E.total) return E; for (auto& b : bases()) { E.start.push_back(E.total); E.total += count_file(b.vtk, false); E.start.push_back(E.total); E.total += count_file(b.xml, true); } return E; }
